@@ -205,3 +205,14 @@ CHECKS['C09'] = {
     'note': 'The OS part is small in the quick tier (about 220 histories); a stuck worker disables later run/restart steps (it violates run()\'s premise).',
 }
 NOT_APPLICABLE = {}
+
+# ---- round-4 generator extensions (DESIGN.md 7.5, Round 4)
+CHECKS['C01']['text'] += ' Persistent items include a partial result the child cannot serialise (the pickling TypeError must be the reported outcome).'
+CHECKS['C02']['text'] += ' Alternatively the parent polls wait(5) or `while not wait(t)` with t in {0, 1 ms, 10 ms}, so that timed waits expire while a large result is still travelling.'
+CHECKS['C03']['text'] += ' A further generator focuses the landing on the frames of the child that put a message on the wire (send_msg, _send_result, put), with partial results up to 100 kB for the remote kind.'
+CHECKS['C06']['text'] += ' A persistent process child is SIGKILLed from outside while it is blocked writing an 8 MiB partial result.'
+CHECKS['C07']['text'] += (' One generated case in eight is a multi-run history on one pool (restarts, kills, additions, runs with a refusing enqueue_fn), each run judged for '
+                          'termination and its own multiset. A coverage-guided stage mutates the same strategy under branch coverage of pool.py.')
+CHECKS['C09']['text'] += ' Histories include runs with a refusing enqueue_fn and a restart_workers() that fails on an unstoppable worker.'
+CHECKS['C17']['text'] += ' With the forwarding thread held, close/wait/terminate/restart calls that already find the remote child gone may precede the judged restart.'
+CHECKS['C18']['text'] += ' A start-worker request that the context helper cannot rebuild must leave the context, its workers and the server usable.'
